@@ -37,7 +37,10 @@ pub mod filter_zoom {
 use super::*;
 //@extract struct file="versatiles_pipeline/src/operations/transform/filter_zoom.rs" name="Args"
 //@end
-impl Args { #[verifier::external_body] pub fn from_vpl_node(n: &VPLNode) -> (r: Result<Args, VErr>) { unimplemented!() } }
+pub uninterp spec fn args_of(n: VPLNode) -> Args;   // the argument values the derive-generated decoder extracts from the node
+impl Args { #[verifier::external_body] pub fn from_vpl_node(n: &VPLNode) -> (r: Result<Args, VErr>) ensures r is Ok ==> r.unwrap() == args_of(*n) { unimplemented!() } }
+pub open spec fn lo_of(a: Args) -> int { match a.min { Some(m) => m as int, None => 0 } }
+pub open spec fn hi_of(a: Args) -> int { match a.max { Some(m) => m as int, None => 255 } }
 //@extract struct file="versatiles_pipeline/src/operations/transform/filter_zoom.rs" name="Operation"
 //@end
 impl Operation {
@@ -56,7 +59,8 @@ impl Operation {
 		requires source.src_ok()
 		ensures r is Ok ==> r.unwrap().inv(),
 			r is Ok ==> r.unwrap().source == source,
-			r is Ok ==> exists|lo: int, hi: int| zoom_filtered(r.unwrap().parameters.bbox_pyramid, source.params().bbox_pyramid, lo, hi),
+			// exactly the levels min..=max the arguments name (absent argument: no limit)
+			r is Ok ==> zoom_filtered(r.unwrap().parameters.bbox_pyramid, source.params().bbox_pyramid, lo_of(args_of(vpl_node)), hi_of(args_of(vpl_node))),
 //@at "let mut tilejson"
 		proof {
 			let lo: int = match args.min { Some(m) => m as int, None => 0 };
@@ -90,7 +94,9 @@ pub mod filter_bbox {
 use super::*;
 //@extract struct file="versatiles_pipeline/src/operations/transform/filter_bbox.rs" name="Args"
 //@end
-impl Args { #[verifier::external_body] pub fn from_vpl_node(n: &VPLNode) -> (r: Result<Args, VErr>) { unimplemented!() } }
+pub uninterp spec fn args_of(n: VPLNode) -> Args;
+impl Args { #[verifier::external_body] pub fn from_vpl_node(n: &VPLNode) -> (r: Result<Args, VErr>) ensures r is Ok ==> r.unwrap() == args_of(*n) { unimplemented!() } }
+pub open spec fn geo_of(a: Args) -> GeoBBox { GeoBBox(a.bbox[0], a.bbox[1], a.bbox[2], a.bbox[3]) }
 //@extract fn file="versatiles_core/src/types/geo_bbox.rs" scope="impl From<&[f64; 4]> for GeoBBox" name="from" as="geo_bbox_from"
 //@rewrite "Self" => "GeoBBox"
 //@ret r
@@ -116,7 +122,8 @@ impl Operation {
 		// an invalid argument is reported as an error here (never a panic: intersect_geo_bbox's precondition is an obligation)
 		ensures r is Ok ==> r.unwrap().inv(),
 			r is Ok ==> r.unwrap().source == source,
-			r is Ok ==> exists|g: GeoBBox| geo_valid(g) && bbox_filtered(r.unwrap().parameters.bbox_pyramid, source.params().bbox_pyramid, g),
+			// exactly the tiles of the box the argument names; an invalid box is an error
+			r is Ok ==> geo_valid(geo_of(args_of(vpl_node))) && bbox_filtered(r.unwrap().parameters.bbox_pyramid, source.params().bbox_pyramid, geo_of(args_of(vpl_node))),
 //@at "let mut tilejson"
 		proof {
 			assert forall|c: TileCoord3| #[trigger] parameters.bbox_pyramid.has(c) <==> (source.params().bbox_pyramid.has(c) && c.z < 32 && geo_box(geo_bbox, c.z as int).has(c.x as int, c.y as int)) by { }
